@@ -8,8 +8,9 @@
 (* sequence under the most liberal reading - everything from an           *)
 (* introducer up to and including the first final byte (or up to the next *)
 (* introducer / the end when there is none) may belong to a sequence.     *)
-(* OrdinaryCsi(s): every introducer starts a complete numeric CSI         *)
-(* sequence  CSI (digits (; digits)* )? final ; Strip(s) removes them.    *)
+(* OrdinaryCsi(s): every escape sequence in s is a complete numeric CSI   *)
+(* sequence  CSI (digits (; digits)* )? final  (a lone ESC that starts no  *)
+(* sequence is ordinary text); Strip(s) removes those sequences.           *)
 (***************************************************************************)
 EXTENDS Base
 
@@ -50,6 +51,10 @@ NumEndNeedDigit(s, j) == IF j <= Len(s) /\ IsDigit(s[j]) THEN NumEnd(s, j + 1, T
 RECURSIVE OrdFrom(_, _)
 OrdFrom(s, i) ==
   IF i > Len(s) THEN <<TRUE, <<>>>>
+  ELSE IF s[i] = ESC /\ (i = Len(s) \/ s[i + 1] < 32 \/ s[i + 1] >= 127) THEN
+       \* a lone ESC (nothing, a control character or a non-ASCII character follows): it starts no escape
+       \* sequence at all - it is a control character of the text and stays
+       LET r == OrdFrom(s, i + 1) IN <<r[1], <<s[i]>> \o r[2]>>
   ELSE IF IsIntro(s[i]) THEN
        LET start == IF s[i] = CSI8 THEN i + 1 ELSE IF i + 1 <= Len(s) /\ s[i + 1] = LBR THEN i + 2 ELSE 0
            endp == IF start = 0 THEN 0 ELSE NumEnd(s, start, FALSE)
